@@ -161,6 +161,7 @@ func genC04Mixed(g *Gen) any {
 		pl := StreamPlan{SizeClass: g.Int(1, 4), SizeSeed: g.Rng.Uint64(), ReadBuf: g.Pick(7, 512, 3000, 16384, 40000)}
 		lim := min(20000, 100*pl.ReadBuf)
 		pl.Up, pl.Down = g.Int(0, lim), g.Int(0, lim)
+		pl.ViaCopyW = g.Bool(0.35)
 		sc.Streams = append(sc.Streams, pl)
 	}
 	if sc.PatKey%5 == 0 {
@@ -280,11 +281,17 @@ func runC04Mixed(c *Ctx, scAny any) {
 				return
 			}
 			simsync.Go("h:opener-w", func() {
-				if _, err := s.Write(putTag(st.tag)); err != nil {
+				var w io.Writer = s
+				if nc, ok := s.(net.Conn); ok && st.plan.ViaCopyW && sc.RefServer {
+					// Cloak's in-place path: the bytes reach the stream through
+					// common.Copy -> Stream.ReadFrom (as in RouteTCP / serveSession)
+					w = wl.relayInto(nc)
+				}
+				if _, err := w.Write(putTag(st.tag)); err != nil {
 					c.Fail("stream-error", "error:write", "tag: %v", err)
 					return
 				}
-				wl.writePat(s, st, 0, st.plan.Up, "opener")
+				wl.writePat(w, st, 0, st.plan.Up, "opener")
 			})
 			if wl.readPat(s, st, 1, st.plan.Down, &st.downRead, "opener") {
 				st.downDone = true
